@@ -368,7 +368,7 @@ fn ops_case(rt: &Runtime<NoCtx>, drv: &mut Driver, index: u64, rep: &mut Report)
         if doc.as_deref() == Some("rej") {
             rep.violation(
                 "the type checker accepts an operator on operand types the documented rules forbid",
-                &format!("op-accepted:{what}"),
+                &format!("op-accepted:{}", what.split(':').next().unwrap_or("")),
                 input.clone(),
             );
         }
@@ -947,7 +947,7 @@ fn replay_one(input: &Value, rep: &mut Report) {
             // operator table entry: accepted although the documented rules forbid it?
             rep.evaluations += 1;
             if compile(&rt, src, false) == Outcome::Ok {
-                rep.violation("the type checker accepts an operator on operand types the documented rules forbid", &format!("op-accepted:{table}"), input.clone());
+                rep.violation("the type checker accepts an operator on operand types the documented rules forbid", &format!("op-accepted:{}", table.split(':').next().unwrap_or("")), input.clone());
             }
             return;
         }
